@@ -53,6 +53,8 @@ func variants(run *vh.Run, nBlocks int) []Variant {
 		{Name: "config-b", Binary: "plain", GoMaxProcs: 4, Pruning: "nothing", EVMTracer: "access_list", IAVLCache: 1000000},
 		{Name: "noisy", Binary: "plain", GoMaxProcs: 16, Noisy: true},
 		{Name: "kill-restart", Binary: "plain", GoMaxProcs: 4, LevelDB: true, KillAfter: nBlocks / 2},
+		// queries and mempool traffic concurrent with block execution, under the race detector
+		{Name: "noisy-race", Binary: "race", GoMaxProcs: 16, Noisy: true},
 	}
 	if run.Thorough() {
 		vs = append(vs,
@@ -62,7 +64,6 @@ func variants(run *vh.Run, nBlocks int) []Variant {
 			Variant{Name: "config-c", Binary: "plain", GoMaxProcs: 16, Pruning: "custom", MinGasPrices: "0wei", InterBlockCache: true, LevelDB: true},
 			Variant{Name: "config-d", Binary: "plain", GoMaxProcs: 2, EVMTracer: "json", IndexEvents: []string{"tx.height"}, QueryGasLimit: 1},
 			Variant{Name: "config-e", Binary: "plain", GoMaxProcs: 3, Telemetry: true, Pruning: "everything", LevelDB: true, KillAfter: nBlocks / 3},
-			Variant{Name: "noisy-race", Binary: "race", GoMaxProcs: 16, Noisy: true},
 			Variant{Name: "race", Binary: "race", GoMaxProcs: 8},
 		)
 	}
@@ -238,9 +239,10 @@ func oneHistory(run *vh.Run, label string, hi, nBlocks int) {
 			continue
 		}
 		if o.nq != "" {
-			var n int
-			fmt.Sscan(o.nq, &n)
+			var n, nc int
+			fmt.Sscan(o.nq, &n, &nc)
 			run.Count("noisy_queries_answered_during_replay", n)
+			run.Count("noisy_checktx_calls_during_replay", nc)
 		}
 		if o.v.Noisy && tracesDiffer(leader, o.tr) {
 			// Followers with concurrent query goroutines are schedule-dependent. A divergence there is re-examined once with
@@ -380,7 +382,9 @@ func runFollower(binDir, dir, hist, queries string, v Variant) ([]BlockTrace, st
 	}
 	fdir := filepath.Join(dir, "f-"+v.Name)
 	_ = os.MkdirAll(fdir, 0o755)
-	defer os.RemoveAll(fdir)
+	if os.Getenv("C01_KEEP") == "" {
+		defer os.RemoveAll(fdir)
+	}
 	vb, _ := json.Marshal(v)
 	trace := filepath.Join(fdir, "trace.jsonl")
 	env := append(os.Environ(), "C01_MODE=follow", "C01_HISTORY="+hist, "C01_TRACE="+trace, "C01_VARIANT="+string(vb), "C01_DBDIR="+fdir, "C01_QUERIES="+queries,
